@@ -214,27 +214,38 @@ pub fn suite_c04(ctx: &mut Ctx) {
             run_history(ctx, ty, 0, &steps, 1, h % 5 == 0);
             ctx.sink.free = true;
         }
-        // directed: single full-precision products at every total scale (every alignment of the product
-        // against the quire's 64-bit limbs, with and without a mantissa carry): the bit image must be exact
+        // directed: single products of operands with dense fractions (all ones / random with the last bit set)
+        // for every pair of operand shapes (regime x exponent): every alignment of the product's lowest bit
+        // against the quire's 64-bit limbs, with and without a mantissa carry; the bit image must be exact
         {
-            let maxs = ((ty.n - 2) << ty.es) as i32;
-            for s in -maxs..=maxs {
-                for v in 0..ctx.q(4, 24) {
-                    ctx.sink.boundary();
-                    ctx.sink.free = false;
-                    let sa = ctx.rng.gen_range(-(ty.n as i32)..ty.n as i32).clamp(-maxs, maxs);
-                    let sb = (s - sa).clamp(-maxs, maxs);
-                    let fr = |ctx: &mut Ctx, k: usize| match k % 4 { 0 => u64::MAX, 1 => ctx.rng.gen::<u64>() | 1 | (1 << 63), 2 => ctx.rng.gen::<u64>(), _ => 1 };
-                    // (from_scale takes the fraction left-aligned; low bits that do not fit are cut, so force
-                    //  the last representable fraction bit to 1 afterwards)
-                    let mut a = gen::from_scale(ty.n, ty.es, sa, fr(ctx, v));
-                    let mut b = gen::from_scale(ty.n, ty.es, sb, fr(ctx, v / 2 + 1));
-                    if v % 3 != 2 { a |= 1; b |= 1; }
-                    if ctx.rng.gen::<bool>() { a = gen::neg(ty.n, a); }
-                    let steps = vec![Step { op: if v % 2 == 0 { "q_add" } else { "q_sub" }, sp: ["pp", "m", "tr"][v % 3], x: vec![a, b], bs: vec![] }];
-                    run_history(ctx, ty, 0, &steps, 0, false);
-                    ctx.sink.free = true;
+            let kmax = ty.n as i32 - 2;
+            let mut shapes: Vec<(i32, u32)> = Vec::new();
+            for k in -kmax..=kmax {
+                for e in 0..(1u32 << ty.es) {
+                    shapes.push((k, e));
                 }
+            }
+            let near: Vec<(i32, u32)> = shapes.iter().cloned().filter(|&(k, _)| k >= -3 && k <= 2).collect();
+            let mut pairs: Vec<((i32, u32), (i32, u32))> = Vec::new();
+            for &sa in &near {
+                for &sb in &near {
+                    pairs.push((sa, sb));
+                }
+            }
+            for _ in 0..ctx.q(2500, 60_000) {
+                pairs.push((shapes[ctx.rng.gen_range(0..shapes.len())], shapes[ctx.rng.gen_range(0..shapes.len())]));
+            }
+            for (v, &((ka, ea), (kb, eb))) in pairs.iter().enumerate() {
+                ctx.sink.boundary();
+                ctx.sink.free = false;
+                let fa = if v % 2 == 0 { u64::MAX } else { ctx.rng.gen::<u64>() | 1 };
+                let fb = if v % 4 < 2 { u64::MAX } else { ctx.rng.gen::<u64>() | 1 };
+                let mut a = gen::compose(ty.n, ty.es, ka, ea, fa);
+                let b = gen::compose(ty.n, ty.es, kb, eb, fb);
+                if v % 3 == 0 { a = gen::neg(ty.n, a); }
+                let steps = vec![Step { op: if v % 5 == 0 { "q_sub" } else { "q_add" }, sp: ["pp", "m", "tr"][v % 3], x: vec![a, b], bs: vec![] }];
+                run_history(ctx, ty, 0, &steps, 0, false);
+                ctx.sink.free = true;
             }
         }
         // directed: carry/borrow chains around zero and at the top
